@@ -199,6 +199,9 @@ UNITS["C17"] = [
        "contextual -> input length; chained -> input + lookahead; reverse chained -> 1 + lookahead (the per-rule kernel of OS/2 usMaxContext)"),
     _k("c17_max_context_without_layout_tables_is_zero", "fontbe", "fontbe/src/os2/max_context.rs", ["fontbe::os2::max_context::compute_max_context_value"], "complete", "no inputs", "-",
        "no GSUB and no GPOS: usMaxContext is 0"),
+    _k("c17_component_affine_round_trip", "fontbe", "fontbe/src/glyphs.rs", ["fontbe::glyphs::affine_for", "fontbe::glyphs::create_component_ref_gid"], "complete",
+       "every 2x2 scale pair in [-2,2]^2 and every offset pair in [-32768, 32767]^2; loop-free", "representable component transform",
+       "affine_for inverts create_component_ref_gid: offsets read back exactly as the OT-rounded source offsets, scales within one 2.14 unit, zero shear stays zero (composite bounding boxes are computed from the components as read back)"),
     _k("c17_metrics_cover", "fontbe", _MET, [], "complete", "", "", "full / partial / no trimming and both clamps reachable", kind="cover"),
 ]
 
